@@ -91,7 +91,7 @@ func classString(feats []string, a []B) string {
 
 var c14ReadOnly = map[string]bool{"get": true, "strlen": true, "mget": true, "exists": true, "type": true, "lrange": true, "llen": true, "lindex": true,
 	"hgetall": true, "hget": true, "hkeys": true, "hlen": true, "smembers": true, "scard": true, "sismember": true, "zrange": true, "keys": true, "ping": true,
-	"publish": true}
+	"publish": true, "subscribe": true}
 
 // taintedClasses computes, for every command of a sequential program, its
 // trigger class: the argument shapes it carries itself plus the shapes carried
